@@ -91,7 +91,7 @@ def run(outdir, REPO, shard='0/1'):
             print(json.dumps({'mutant': d, 'error': r.stderr[-200:]})); continue
         try:
             env = dict(os.environ, VERIF_EVIDENCE_DIR=os.path.join(outdir, '_evidence%d' % si), VERIF_REPLAY_DIR=os.path.join(p, 'replays'))
-            c = subprocess.run(['./check', 'ALL', '--repo', REPO], cwd='/verif', capture_output=True, text=True, timeout=7200, env=env)
+            c = subprocess.run(['./check', 'ALL', '--repo', REPO], cwd=os.environ.get('VERIF_ROOT', '/verif'), capture_output=True, text=True, timeout=7200, env=env)
             open(os.path.join(p, 'check.log'), 'w').write(c.stdout + c.stderr)
             viol = sorted(set(re.findall(r'^VIOLATION property=(C\d+)', c.stdout, re.M)))
             inc = sorted(set(re.findall(r'^INCONCLUSIVE property=(C\d+)', c.stdout, re.M)))
